@@ -24,7 +24,7 @@ PROP = {
 LEVEL = ('proof',
  'get_mutability (after FIX.patch; the pinned body is kept as get_mutability_by_form) is transcribed arm by arm over '
  'PathLang (locals with their initialiser expression and type, parameters, globals, module members, ^ / ^mut, deref, '
- 'index, field, paren, #unwrap, block tails, calls, casts, literals) and proved sound and complete against a place '
+ 'index and field (following every pointer level, as the typer does: fix 93c6805), paren, #unwrap, block tails, calls, casts, literals) and proved sound and complete against a place '
  'semantics written from the property text, for every well-typed target of any depth and for both call sites '
  '(CapyV.C14.sound, complete, assign_rejected_iff, mutref_rejected_iff, deref_decided_by_type). The same model with '
  'fixed=false is the pinned function; its violations are theorems too (sound_counterexample_declared_type, _call, '
